@@ -239,3 +239,27 @@ Proof.
   split; [exact demo_schema_wf|]. split; [repeat constructor; vm_compute; reflexivity|].
   rewrite H1, H2, H3. split; [vm_compute; reflexivity | vm_compute; discriminate].
 Qed.
+
+(* ---- the log's writer ---- *)
+(* the log the fixed writer leaves is the log of the sinks model *)
+Theorem log_file_is_model_log eo s steps : wf_order eo = true ->
+  k_log (run_faulty eo s steps) = log_file (map (fun x => (write_line s (fst x), snd x)) steps).
+Proof.
+  intros Ho. rewrite (run_faulty_eq eo s steps Ho), run_emits_eq. cbn [k_log]. unfold log_file, logged.
+  induction steps as [|[e ok] steps IH]; [reflexivity|]. cbn [map filter fst snd]. destruct ok; cbn [map fst]; rewrite IH; reflexivity.
+Qed.
+
+(* as long as no write fails the two writers leave the same file *)
+Lemma log_file_unfixed_no_fault steps : forallb snd steps = true -> log_file_unfixed [] steps = log_file steps.
+Proof.
+  unfold log_file. induction steps as [|[l ok] steps IH]; [reflexivity|]. cbn [forallb snd]. intros H.
+  apply andb_true_iff in H. destruct H as [-> H]. cbn [log_file_unfixed filter snd map fst app]. rewrite (IH H). reflexivity.
+Qed.
+
+(* W4 (fixed in /repo): one refused append, then a successful one that reuses its seq: the refused line is in the file *)
+Definition demo_stale_steps : list (str * bool) := [([49], true); ([50], false); ([51], true)].
+Theorem log_writer_keeps_failed_line_refuted :
+  exists steps, log_file_unfixed [] steps <> log_file steps /\ exists l, In (l, false) steps /\ In l (log_file_unfixed [] steps).
+Proof.
+  exists demo_stale_steps. split; [vm_compute; discriminate|]. exists [50]. split; vm_compute; tauto.
+Qed.
